@@ -205,6 +205,7 @@ class Table:
         self.columns = BASE_COLS + [c for c in ("depth", "weight") if c[0] in cols]
         self.rows = [self._trim(b) for b in bins]
         self.cna = self._build()
+        self.segcache = {}
 
     def _trim(self, b):
         return tuple(b[:5]) + tuple(v for v in b[5:] if v is not None)
@@ -482,6 +483,9 @@ def check_gm(ctx, t, thr, minp, skip_low=False, female=True, haploid=False, parx
 
 def make_segments(t, cutspec, srot, with_probes, shift=0.0):
     """cutspec: per chromosome, the tuple of cut positions.  Returns (model segments, real segment table, per-segment bin masks)."""
+    key = (cutspec, srot, with_probes, shift)
+    if key in t.segcache:
+        return t.segcache[key]
     msegs, rows, masks = [], [], []
     j = 0
     for (chrom, idxs), cuts in zip(M.chrom_runs(t.bins), cutspec):
@@ -494,6 +498,7 @@ def make_segments(t, cutspec, srot, with_probes, shift=0.0):
             rows.append((chrom, s, e, "-", log2) + ((b - a,) if with_probes else ()))
             masks.append([idxs[a] <= i <= idxs[b - 1] for i in range(len(t.bins))])
     segarr = CNA.from_rows(rows, columns=BASE_COLS + (["probes"] if with_probes else []))
+    t.segcache = {key: (msegs, segarr, masks)}  # one entry: consecutive calls with the same cut reuse the segment table
     return msegs, segarr, masks
 
 
@@ -625,9 +630,9 @@ def run_groups(case, ctx):
     ctx.sample("groups", {"word": " ".join(w), "expected": [[g, idxs] for g, idxs in M.groups(t.bins)]})
 
 
-def pair_tables(w):
+def pair_tables(w, slice2=SLICE2):
     """(words, position of w) for word w with every slice word as the other chromosome, both orders."""
-    for s in SLICE2:
+    for s in slice2:
         yield [w, s], 0
         yield [s, w], 1
 
@@ -658,6 +663,8 @@ def run_genemetrics(case, ctx):
     w = tuple(case["w"])
     for index in case["indexes"]:
         for rot in case["rots"]:
+            if index == "gapped" and rot:
+                continue  # the every-other-row index with rotation 0 only
             t = Table([w], index=index, rot=rot)
             for thr, minp in GM_CONFIGS:
                 exp = check_gm(ctx, t, thr, minp)
@@ -784,7 +791,7 @@ def pair_cutspecs(ws, which):
 
 def run_gm_seg2(case, ctx):
     w = tuple(case["w"])
-    for ws, which in pair_tables(w):
+    for ws, which in pair_tables(w, SLICE2[::2]):
         t = Table(ws)
         for cutspec in pair_cutspecs(ws, which):
             check_gm_seg(ctx, t, cutspec, 0, 0.2, 1, True)
@@ -810,7 +817,7 @@ def run_breaks(case, ctx):
 
 def run_breaks2(case, ctx):
     w = tuple(case["w"])
-    for ws, which in pair_tables(w):
+    for ws, which in pair_tables(w, SLICE2[::2]):
         t = Table(ws)
         for cutspec in pair_cutspecs(ws, which):
             for minp in (1, 2):
